@@ -19,6 +19,8 @@ FLAVORS = {
     "tsan": dict(cxx="g++", cc="gcc",
                  flags="-O1 -g -fno-omit-frame-pointer -fsanitize=thread -D%s" % GUARD),
     "plain": dict(cxx="g++", cc="gcc", flags="-O2 -g -D%s" % GUARD),
+    # not a check flavor: `VERIF_COVERAGE=1 ./check ...` (see bin/coverage) maps asan/tsan/plain to it to find what the workloads never reach
+    "cov": dict(cxx="g++", cc="gcc", flags="-O0 -g --coverage -fprofile-update=atomic -D%s" % GUARD),
     "fuzz": dict(cxx="clang++-14", cc="clang-14",
                  flags="-O1 -g -fno-omit-frame-pointer -fsanitize=fuzzer-no-link,address,undefined -fno-sanitize=nonnull-attribute "
                        "-fno-sanitize-recover=all -fno-sanitize=object-size -D%s" % GUARD,
@@ -136,20 +138,23 @@ def build(flavor, harnesses=()):
     """Build libs of a flavor plus the named harnesses; returns dict name->path."""
     t0 = time.time()
     os.makedirs(BUILD, exist_ok=True)
+    cov = os.environ.get("VERIF_COVERAGE") == "1" and flavor in ("asan", "tsan", "plain")
+    if cov:
+        flavor = "cov"
     lock = open(os.path.join(BUILD, ".lock-" + flavor), "w")
     fcntl.flock(lock, fcntl.LOCK_EX)
     try:
         build_libs(flavor)
         names = [n for n in harnesses]
         for n in names:
-            if flavor not in HARNESSES[n]["flavors"]:
+            if flavor not in HARNESSES[n]["flavors"] and not cov:
                 raise BuildError("harness %s not registered for flavor %s" % (n, flavor))
             if not os.path.exists(os.path.join(VERIF, "harness", HARNESSES[n]["src"])):
                 raise BuildError("harness source missing: %s" % HARNESSES[n]["src"])
         out = {}
         if names:
             # the ninja file lists every harness of this flavor whose source exists, builds the asked ones
-            allnames = [n for n, h in HARNESSES.items() if flavor in h["flavors"]
+            allnames = [n for n, h in HARNESSES.items() if (flavor in h["flavors"] or (cov and "VERIF_FUZZ" not in h["defs"]))
                         and os.path.exists(os.path.join(VERIF, "harness", h["src"]))]
             hd = _harness_ninja(flavor, allnames)
             _run(["ninja", "-C", hd] + names)
@@ -164,6 +169,8 @@ def build(flavor, harnesses=()):
 
 def build_all():
     for flavor in FLAVORS:
+        if flavor == "cov":
+            continue
         names = [n for n, h in HARNESSES.items() if flavor in h["flavors"]
                  and os.path.exists(os.path.join(VERIF, "harness", h["src"]))]
         if flavor == "fuzz" and not names:
